@@ -50,6 +50,7 @@ impl Ctx {
 pub fn input_class(bytes: &[u8], from: &str, to: &str) -> &'static str {
     if from == "yaml" || from == "detect" {
         if let Ok(s) = std::str::from_utf8(bytes) {
+            let s = s.trim_start_matches('\u{feff}'); // a byte order mark is not content
             if s.lines().all(|l| {
                 let t = l.trim_start_matches([' ', '\t']);
                 t.is_empty() || t.starts_with('#')
@@ -246,10 +247,18 @@ fn faults(cx: &mut Ctx, count: u64, seed: u64) {
     for i in 0..count {
         let mut rng = Rng::derive(seed, "faults", i);
         let fmt = ["json", "yaml", "msgpack", "toml"][(i % 4) as usize]; // every source format in turn
-        let s = gen_stream(&mut rng, fmt, 3, false);
-        if s.bytes.len() > 400 {
-            continue;
+        // C12 quantifies over corpus inputs that have a fault-free output: an input in one of the recorded
+        // deviation classes (a YAML text holding no document, ..) is C02/C03's business, not a fault case;
+        // inputs are kept short because every byte offset becomes a case (a few attempts to get one)
+        let mut found = None;
+        for _ in 0..6 {
+            let s = gen_stream(&mut rng, fmt, 3, false);
+            if s.bytes.len() <= 400 && !s.bytes.is_empty() && TARGETS.iter().all(|to| input_class(&s.bytes, s.fmt, to).is_empty()) {
+                found = Some(s);
+                break;
+            }
         }
+        let Some(s) = found else { continue };
         let s_any = s;
         for to in TARGETS {
             // a TOML target gets a document it can represent (otherwise there is no output to fault)
@@ -287,7 +296,9 @@ fn faults(cx: &mut Ctx, count: u64, seed: u64) {
             if s.fmt == "yaml" && !s.bytes.is_empty() && to != "toml" {
                 // the same text in UTF-16/32: the reader fails at every offset (inside and between code units)
                 let text = String::from_utf8_lossy(&s.bytes).into_owned();
-                let enc = *rng.pick(&val::ENCODINGS);
+                // every encoding in turn (over the targets and the YAML streams of a run)
+                let ti = TARGETS.iter().position(|t| *t == to).unwrap_or(0);
+                let enc = val::ENCODINGS[((i / 4) as usize * 3 + ti) % val::ENCODINGS.len()];
                 let bytes = Rc::new(val::reencode(&text, enc, rng.chance(1, 2)));
                 for k in 0..=bytes.len() {
                     let sc = match rng.below(3) {
@@ -412,6 +423,41 @@ fn tokens(cx: &mut Ctx) {
                     let case = CaseSpec { to, calls: vec![c], wfault: None, accept: Accept::All, keyed: true, buffered: false, key_text: None, label: format!("tokens/{fmt}/{}", idx.len()) };
                     cx.run(&case, idx.len() >= 2);
                 }
+            }
+        }
+    }
+}
+
+/// Every short YAML token sequence enumerated by TLC, as UTF-8 and re-encoded in UTF-16/32 (both byte
+/// orders, with and without BOM): one key per text, so every encoding and supply must agree (C07).
+fn enctokens(cx: &mut Ctx) {
+    let path = std::env::var("XT_TOKS").expect("XT_TOKS");
+    let text = std::fs::read_to_string(path).expect("token file");
+    let alpha = crate::total::alphabet("yaml");
+    for (n, line) in text.lines().enumerate() {
+        let Ok(idx) = serde_json::from_str::<Vec<usize>>(line) else { continue };
+        if idx.is_empty() {
+            continue;
+        }
+        let mut bytes = vec![];
+        for i in &idx {
+            bytes.extend_from_slice(alpha[(i - 1) % alpha.len()]);
+        }
+        let Ok(t) = String::from_utf8(bytes) else { continue };
+        let key_text = Rc::new(t.clone().into_bytes());
+        let to = ["json", "yaml", "msgpack"][n % 3];
+        let mut variants: Vec<(String, Vec<u8>)> = vec![("utf8".into(), t.clone().into_bytes())];
+        for enc in val::ENCODINGS {
+            for bom in [false, true] {
+                variants.push((format!("{enc}{}", if bom { "+bom" } else { "" }), val::reencode(&t, enc, bom)));
+            }
+        }
+        for (name, b) in variants {
+            let b = Rc::new(b);
+            for m in [Mode::Slice, Mode::Reader(Sched::All), Mode::Reader(Sched::Fixed(1))] {
+                let c = CallSpec { bytes: b.clone(), from: "yaml", true_fmt: None, mode: m, rfault: None, docs: None, values: None, over_report: None };
+                let case = CaseSpec { to, calls: vec![c], wfault: None, accept: Accept::All, keyed: true, buffered: false, key_text: Some(key_text.clone()), label: format!("enctokens/{name}/{}", idx.len()) };
+                cx.run(&case, name != "utf8");
             }
         }
     }
@@ -686,6 +732,7 @@ pub fn record(scenario: &str, out_path: &str, count: u64) {
             "faults" => faults(&mut cx, count, seed),
             "unknown" => unknown(&mut cx, count, seed),
             "tokens" => tokens(&mut cx),
+            "enctokens" => enctokens(&mut cx),
             "lag" => lag(&mut cx, count, seed),
             "toml" => toml(&mut cx, count, seed),
             "witnesses" => witnesses(&mut cx),
